@@ -84,6 +84,8 @@ def compare(spec, expr, env_vals, variants, check_calls, removed=None):
     env.update(env_vals)
     env.pop(removed, None)
     ref = refsem.outcome(refsem.evaluate, spec, env)
+    if refsem.is_skip(ref):
+        return None, "", 0, False
     for variant in variants:
         cimp = Counter()
         env2 = base_env(cimp)
